@@ -3,153 +3,627 @@ from __future__ import annotations
 
 import argparse
 import copy
+import dataclasses
+import enum as _enum
+import pathlib
+from typing import Union
 
 from harness.core import gen_types as G
 from harness.core import sp
-from harness.props import c02
+from harness.core.trees import Universe
 
 PID = "C04"
-RULE = ("(a) end-to-end: a flat dataclass over the CLI type grammar with a valid canonical argv, then exactly one mutation "
-        "from {ill-typed token, tuple arity +1/-1, out-of-set Enum/Literal value, removed required option, unknown option "
-        "that abbreviates nothing, value on a negative boolean flag}, plus the unmutated control and a random token stream; "
-        "the real parse must exit with status 2 and a message on stderr for every mutation, and every accepted result must "
-        "conform leaf by leaf to its annotation. (b) the argparse-engine model against stdlib argparse itself on "
-        "independently generated action tables and argv (abbreviations, `--`, `opt=value`, negative numbers, repeated "
-        "options). Non-trivial = a mutated case, or an engine case with >= 2 actions and >= 3 tokens; distinct by canonical JSON.")
+RULE = ("(a) fields.parse, end to end through the public API and the Lean pipeline model: the MUTATION CLASS of the "
+        "property's quantifier is drawn first {ill-typed token (scalar, container item, heterogeneous-tuple position, "
+        "position swap, Union member, Enum member VALUE), tuple arity +1/-1/=form, out-of-set Enum/Literal value (scalar and "
+        "item), removed required option, unknown option that abbreviates nothing (fresh name, near-miss name+x, wrong dash "
+        "variant, with/without =value, any position), value on a negative flag (both spellings)}, then a flat dataclass "
+        "over the CLI type grammar that has a field the class applies to, a valid canonical argv for it, and exactly one "
+        "mutation; naming settings (dash variant x generation mode x nested mode) vary; plus unmutated controls and a "
+        "random token stream. Every mutation must exit with status 2 and a message on stderr; every accepted result must "
+        "conform leaf by leaf to its annotation. (b) nested.parse (oracle only): a dataclass with a nested dataclass and a "
+        "subgroup field, mutations {subgroup key outside the key set, option of the unselected subgroup, ill-typed token / "
+        "missing required option inside the nested or chosen class, missing required subgroup, unknown option}. (c) engine.run: "
+        "the argparse-engine model against stdlib argparse itself on independently generated action tables (store actions "
+        "with int/float/str/str2bool/Path/parse_enum/try_functions/parse_tuple callables, BooleanOptionalAction) and argv "
+        "(abbreviations, `--`, `opt=value`, negative numbers, repeated options; help requests ~3%). Non-trivial = a mutated "
+        "case, or an engine case with >= 2 actions and >= 3 tokens; distinct by canonical JSON. Declared defaults are "
+        "always well-typed: a dataclass such as `color: Color = \"PURPLE\"` (a string default that names no member) is ill-typed "
+        "itself and outside the property's quantifier (\"dataclasses over the supported type grammar\"); the model reproduces "
+        "its KeyError (Lean witness c04_default_keyerror_witness) but it is not recorded as a finding.")
 ASSUMPTIONS = ["argparse's error path = SystemExit(2) after printing usage + message to stderr (observed in-process)"]
 TRUSTED = ["stdlib argparse (modelled fragment compared directly against it on every run)"]
 EXHAUSTIVE = {"quick": False, "thorough": False}
-THOROUGH_ROUNDS = 3   # thorough tier: this many generator passes with derived PRNG states (vcheck)
+THOROUGH_ROUNDS = 4   # thorough tier: this many generator passes with derived PRNG states (vcheck)
 MANIFEST = {
-    "text": ("Proof: over the Lean model of the argparse engine and of get_arg_options/postprocess — every exit "
-             "status the engine produces other than for an explicit help request is 2 (no status 0, no other code) for "
-             "EVERY argv; a missing required option, an unknown long option, a token that fails its type= conversion, a "
-             "value outside choices and a wrong arity for a fixed-length tuple are each rejected with status 2 wherever "
-             "they occur; the namespace only ever holds converted values (type soundness of stored items for every argv). "
-             "No converter of the model can raise (never a traceback) for every well-formed table and every argv — full since the repair "
-             "b1a5942 of the parse_tuple call counter (a heterogeneous-tuple option given twice raised IndexError; kept as a "
-             "regression example, and the counter is proved to wrap: item k mod n); the only raising table is the ill-formed "
-             "closure over no item type (witness theorem), which simple-parsing never builds: every table built for a flat "
-             "dataclass is proved well-formed (tableOf_noRaiseTbl), so c04_no_traceback_flat is unconditional; and the closure "
-             "counters stay multiples of the arity across any accepted command line (c04_counters_aligned: induction over the "
-             "consume loop), which is what makes the next parse on the same parser start every tuple at its first item type. "
-             "The model is tied to the code by the end-to-end op fields.parse and, independently of simple-parsing, by "
-             "engine.run against stdlib argparse; the property's clauses are evaluated on every real parse."),
+    "text": ("Proof over the Lean model of the argparse engine (Model/Engine) and of get_arg_options/postprocess "
+             "(Model/Fields). For EVERY table and EVERY argv: the only exit statuses are 2 and, for a lexed help token, 0 "
+             "(c04_status, c04_exit0_needs_help_token); the `fuel` and `bad action index` escape hatches of the model are "
+             "dead code (c04_unmodelled_reasons: an unmodelled outcome is always a type conversion outside the fragment or a "
+             "single-dash cluster). Rejection, wherever the offending token stands and whatever surrounds it (statements over "
+             "arbitrary argv = pre ++ … ++ post, no canonical-shape assumption): unknown long option with the lexer's verdict "
+             "DERIVED (c04_unknown_long_rejected), required option absent (c04_missing_required_any), value on a negative flag "
+             "in both spellings (c04_negflag_eq_rejected, c04_negflag_space_rejected), wrong arity of a fixed-length tuple "
+             "(c04_arity_short_rejected, c04_arity_long_rejected, c04_arity_eq_rejected), a token failing type=/choices= "
+             "(c04_bad_value_rejected; position-aware for heterogeneous tuples: c04_hetero_bad_rejected uses the proved "
+             "alignment of the parse_tuple counter); each with a `_status2` corollary: without a help token and on a "
+             "well-formed table the outcome IS exit status 2 (or a conversion outside the fragment), not merely `not ok`. "
+             "Well-typedness against the ANNOTATION (not the action's own type=): c04_conforms_flat — for every flat "
+             "dataclass with distinct field names and every argv, each field of an accepted result is the field's declared "
+             "default (possibly run through type= by argparse) or Conforms to its annotation, position by position for "
+             "heterogeneous tuples, with the exact length for fixed tuples, None only under Optional/nargs='?'; through "
+             "postprocess; c04_conforms_flat_strict: with well-typed declared defaults (DefaultsConform) EVERY field conforms "
+             "or is the None of a field declared `= None`. c04_no_traceback_pipeline: under DefaultsConform the whole pipeline "
+             "incl. postprocess never raises; c04_default_keyerror_witness shows the hypothesis is needed (an Enum field "
+             "whose string default is no member raises KeyError on the empty command line — an ill-typed dataclass, outside the property's quantifier, kept as a witness only). Engine-stage theorems of round 1 are kept "
+             "(c04_sound with a strengthened ValOk: lengths, None only for nargs='?'). The model is tied to the code by "
+             "fields.parse (public API vs parseFlat, all naming settings) and, independently of simple-parsing's set-up code, by "
+             "engine.run against stdlib argparse with simple-parsing's real type= callables and BooleanOptionalAction; nested "
+             "dataclasses and subgroups are covered by the oracle only (nested.parse), not by the Lean model."),
     "note": ("Trusted: Lean kernel + standard axioms; harness. Modelled not verified: argparse 3.12.1 optional-argument "
              "fragment, field_wrapper.py:231-533,797-821, field_parsing.py:70-298, custom_actions.py:144-172. Outside the "
-             "model (counted as unmodelled, never compared): single-dash clusters (-x5), non-ASCII digits, positionals."),
-    "technique": "Lean 4 case analysis over the engine's exits + type-soundness invariant; differential check vs argparse",
+             "model (counted as unmodelled, never compared): single-dash clusters (-x5), non-ASCII digits, positionals, "
+             "path normalisation; nested dataclasses / subgroups (oracle only)."),
+    "technique": "Lean 4: one-step characterisation of the consume loop + invariants by induction; differential check vs argparse",
     "design_ref": "DESIGN.md section 5, C04",
 }
 
 GARBAGE = {
-    "int": ["abc", "1.5", "1e3", "0x10", "", "1 2", "12x", "١٢x"],
-    "float": ["abc", "1,5", "", "1.2.3", "0x1p3q"],
-    "bool": ["maybe", "2", "tru", "yess"],
+    "int": ["abc", "1.5", "1e3", "0x10", "", "1 2", "12x", "١٢x", "True"],
+    "float": ["abc", "1,5", "", "1.2.3", "0x1p3q", "1e", "True"],
+    "bool": ["maybe", "2", "tru", "yess", "", "10"],
 }
+CFG0 = {"dash": "UNDERSCORE", "gen": "FLAT", "nest": "DEFAULT"}
+BOOL_WORDS = ["yes", "true", "t", "y", "1", "no", "false", "f", "n", "0"]
+CLASSES = ["illtyped", "arity", "choice", "required", "unknown", "negflag"]
 
 
-def first_base(t):
+# ----------------------------------------------------------------------------------------------
+# independent transcription of "token tok is a well-formed value of base type t" (oracle side)
+
+def valid_for(t, tok: str) -> bool:
     k = t["k"]
-    if k == "opt":
-        return first_base(t["inner"])
-    return t
+    if k == "int":
+        try:
+            int(tok)
+            return True
+        except ValueError:
+            return False
+    if k == "float":
+        try:
+            float(tok)
+            return True
+        except ValueError:
+            return False
+    if k == "bool":
+        return tok.strip().lower() in BOOL_WORDS
+    if k == "enum":
+        return tok in t["members"]
+    if k == "union":
+        return any(valid_for(a, tok) for a in t["alts"])
+    return True   # str, path, any
 
 
-def mutate(rng, c):
-    """returns (kind, new argv) or None; c is a C02-style case dict"""
-    fields = c["fields"]
-    asg = c["asg"]
-    kinds = []
+def inner_of(t):
+    return t["inner"] if t["k"] == "opt" else t
+
+
+# ----------------------------------------------------------------------------------------------
+# option spelling under the naming settings (only used to WRITE command lines; the model derives its own)
+
+def cand_names(cfg, nm):
+    nested = ("config." + nm) if cfg["nest"] == "DEFAULT" else nm
+    c = {"FLAT": [nm], "NESTED": [nested], "BOTH": [nm, nested]}[cfg["gen"]]
+    if cfg["dash"] == "DASH":
+        c = [x.replace("_", "-") for x in c]
+    return c
+
+
+def opt_of(cfg, nm):
+    x = cand_names(cfg, nm)[0]
+    if len(nm) == 1 and x == nm:
+        return "-" + x
+    return "--" + x
+
+
+def neg_of(opt):
+    body = opt.lstrip("-")
+    if "." in body:
+        first, *mid, last = body.split(".")
+        return "--" + ".".join([first] + mid + ["no" + last])
+    return "--no" + body
+
+
+def all_spellings(cfg_unused, fields):
+    """an OVER-approximation of every option string the parser may have (any settings), for choosing unknown options"""
+    out = {"-h", "--help"}
     for f in fields:
-        nm, t = f["name"], f["ty"]
-        inner = t["inner"] if t["k"] == "opt" else t
-        k = inner["k"]
-        if nm in asg and asg[nm]["t"] != "none":
-            if k in ("int", "float", "bool"):
-                kinds.append(("illtyped", f))
-            if k in ("list", "vtuple") and inner["item"]["k"] in ("int", "float", "bool") and asg[nm]["v"]:
-                kinds.append(("illtyped-item", f))
-            if k == "tuple" and any(it["k"] in ("int", "float", "bool") for it in inner["items"]):
-                kinds.append(("illtyped-item", f))
-            if k == "tuple":
-                kinds.append(("arity+", f))
-                kinds.append(("arity-", f))
-            if k in ("enum", "literal"):
-                kinds.append(("choice", f))
-            if k in ("list", "vtuple") and inner["item"]["k"] == "enum" and asg[nm]["v"]:
-                kinds.append(("choice-item", f))
-        if f["default"]["kind"] == "missing" and t["k"] != "opt" and nm in asg:
-            kinds.append(("required", f))
-        if k == "bool" and t["k"] != "opt" and not (f["default"]["kind"] == "value" and f["default"]["v"]["t"] == "none"):
-            kinds.append(("negflag", f))
-    kinds.append(("unknown", None))
-    kind, f = rng.choice(kinds)
-    asg2 = copy.deepcopy(asg)
-    order = list(c["order"])
-    eq = list(c["eq"])
-    extra = []
-    if kind == "unknown":
-        names = {x["name"] for x in fields}
-        cand = [u for u in ["--zzz", "--unknown_opt", "--qq.x", "-Z", "--nx"] if not any(("--" + n).startswith(u) or ("-" + n) == u for n in names)]
+        nm = f["name"]
+        for base in {nm, "config." + nm, nm.replace("_", "-"), "config." + nm.replace("_", "-")}:
+            out |= {"-" + base, "--" + base, neg_of("--" + base)}
+    return out
+
+
+def render(cfg, fields, asg, order, eq_flags):
+    argv = []
+    for nm, eq in zip(order, eq_flags):
+        toks = G.tokens(asg[nm])
+        opt = opt_of(cfg, nm)
+        if toks is None:
+            argv.append(opt)  # bare option: only generated for Optional scalars (stores None)
+        elif eq and len(toks) == 1:
+            argv.append(f"{opt}={toks[0]}")
+        else:
+            argv += [opt] + toks
+    return argv
+
+
+# ----------------------------------------------------------------------------------------------
+# dataclass generation (copied from the C02 generator so that the two checks evolve independently)
+
+def gen_default(rng, t, required_p=0.25):
+    r = rng.random()
+    if r < required_p:
+        return {"kind": "missing"}
+    if t["k"] == "opt" and r < 0.6:
+        return {"kind": "value", "v": {"t": "none"}}
+    return {"kind": "value", "v": G.literal_expressible(t, G.gen_value(rng, t))}
+
+
+def gen_fields(rng, n=None):
+    n = n or rng.choice([1, 2, 2, 3, 3, 4, 5, 6])
+    names = rng.sample(G.NAMES, n)
+    fields = []
+    for nm in names:
+        t = G.gen_ty(rng)
+        fld = {"name": nm, "ty": t, "default": gen_default(rng, t)}
+        if rng.random() < 0.15:
+            fld["metavar"] = rng.choice(["N", "VALUE", "X"])
+        if rng.random() < 0.1:
+            fld["help"] = "some help text"
+        fields.append(fld)
+    return fields
+
+
+def sort_fields(fields):
+    fields.sort(key=lambda f: f["default"]["kind"] != "missing")   # dataclasses demand fields without a default first
+    return fields
+
+
+def fit_type(rng, cls):
+    """a field type the mutation class applies to"""
+    def maybe_opt(t, p=0.25):
+        return {"k": "opt", "inner": t} if rng.random() < p else t
+
+    if cls == "illtyped":
+        r = rng.random()
+        b = {"k": rng.choice(["int", "float", "bool"])}
+        if r < 0.25:
+            return maybe_opt(b)
+        if r < 0.40:
+            return maybe_opt({"k": rng.choice(["list", "vtuple"]), "item": b})
+        if r < 0.70:
+            n = rng.choice([2, 2, 3, 4])
+            items = [G.base_ty(rng) for _ in range(n)]
+            items[rng.randrange(n)] = b
+            return maybe_opt({"k": "tuple", "items": items})
+        if r < 0.85:
+            alts = rng.choice([["int", "float"], ["float", "int"], ["int", "bool"], ["bool", "float"]])
+            return maybe_opt({"k": "union", "alts": [{"k": a} for a in alts]})
+        e = dict(rng.choice(G.ENUMS))
+        return rng.choice([{"k": "opt", "inner": e}, {"k": "list", "item": e}, {"k": "tuple", "items": [e, {"k": "int"}]}, e])
+    if cls == "arity":
+        n = rng.choice([1, 2, 2, 3, 4])
+        if rng.random() < 0.4:
+            b = G.base_ty(rng)
+            items = [dict(b) for _ in range(n)]
+        else:
+            items = [G.base_ty(rng) for _ in range(n)]
+        return maybe_opt({"k": "tuple", "items": items})
+    if cls == "choice":
+        r = rng.random()
+        e = dict(rng.choice(G.ENUMS))
+        if r < 0.35:
+            return e
+        if r < 0.6:
+            for _ in range(20):
+                t = G.gen_ty(rng, p_opt=0.0)
+                if t["k"] == "literal":
+                    return t
+            return e
+        if r < 0.75:
+            return {"k": rng.choice(["list", "vtuple"]), "item": e}
+        if r < 0.9:
+            return {"k": "tuple", "items": [{"k": "str"}, e]}
+        return {"k": "opt", "inner": e}
+    if cls == "negflag":
+        return {"k": "bool"}
+    return G.gen_ty(rng, p_opt=0.0)
+
+
+def class_applies(cls, f):
+    t = f["ty"]
+    inner = inner_of(t)
+    k = inner["k"]
+    if cls == "illtyped":
+        if k in ("int", "float", "bool"):
+            return True
+        if k == "union":
+            return not any(a["k"] in ("str", "path") for a in inner["alts"])
+        if k in ("list", "vtuple"):
+            return inner["item"]["k"] in ("int", "float", "bool") or (inner["item"]["k"] == "enum" and bool(value_tokens(inner["item"])))
+        if k == "tuple":
+            return any(it["k"] in ("int", "float", "bool") or (it["k"] == "enum" and value_tokens(it)) for it in inner["items"])
+        if k == "enum":
+            return bool(value_tokens(inner))
+        return False
+    if cls == "arity":
+        return k == "tuple"
+    if cls == "choice":
+        return k in ("enum", "literal") or (k in ("list", "vtuple") and inner["item"]["k"] == "enum") or \
+            (k == "tuple" and any(it["k"] == "enum" for it in inner["items"]))
+    if cls == "required":
+        return f["default"]["kind"] == "missing" and t["k"] != "opt"
+    if cls == "negflag":
+        return t["k"] == "bool" and not (f["default"]["kind"] == "value" and f["default"]["v"]["t"] == "none")
+    return True
+
+
+def value_tokens(e):
+    """str() of the member VALUES of an enum type that are not member NAMES (a by-value lookup would accept them)"""
+    vals = e.get("values")
+    if vals is None:
+        vals = list(range(len(e["members"])))
+    return [str(v) for v in vals if str(v) not in e["members"]]
+
+
+def make_case(rng, fields, cfg, api, force=None):
+    asg = {}
+    for f in fields:
+        must = f["default"]["kind"] == "missing" and f["ty"]["k"] != "opt"
+        if must or f["name"] == force or rng.random() < 0.6:
+            asg[f["name"]] = G.literal_expressible(f["ty"], G.gen_value(rng, f["ty"], allow_none=f["name"] != force))
+    ok = False
+    for _ in range(30):
+        if expressible(fields, asg):
+            ok = True
+            break
+        for f in fields:
+            if f["name"] in asg:
+                asg[f["name"]] = G.literal_expressible(f["ty"], G.gen_value(rng, f["ty"], allow_none=f["name"] != force))
+    if not ok:
+        return None
+    order = list(asg)
+    rng.shuffle(order)
+    eq = [rng.random() < 0.5 for _ in order]
+    return {"fields": fields, "asg": asg, "order": order, "eq": eq, "api": api, "cfg": cfg,
+            "argv": render(cfg, fields, asg, order, eq)}
+
+
+def expressible(fields, asg):
+    for f in fields:
+        if f["name"] in asg:
+            toks = G.tokens(asg[f["name"]])
+            if toks is None:
+                t = f["ty"]
+                if not (t["k"] == "opt" and t["inner"]["k"] not in ("list", "tuple", "vtuple")):
+                    return False
+                continue
+            if not all(G.expressible_token(t) for t in toks):
+                return False
+            if inner_of(f["ty"])["k"] == "tuple" and len(toks) == 0:
+                return False
+    return True
+
+
+def gen_cfg(rng):
+    if rng.random() < 0.5:
+        return dict(CFG0), rng.choice(["parse", "parser"])
+    return {"dash": rng.choice(sp.ALL_DASH), "gen": rng.choice(sp.ALL_GEN), "nest": rng.choice(sp.ALL_NEST)}, "parser"
+
+
+def gen_base(rng, cls):
+    """(case dict, field the class applies to | None)"""
+    for _ in range(50):
+        fields = gen_fields(rng)
+        cands = [f for f in fields if class_applies(cls, f)]
+        if not cands and cls != "unknown":
+            f = rng.choice(fields)
+            f["ty"] = fit_type(rng, cls)
+            f["default"] = {"kind": "missing"} if cls == "required" else gen_default(rng, f["ty"], 0.25)
+            if cls == "negflag" and f["default"]["kind"] == "value" and f["default"]["v"]["t"] == "none":
+                f["default"] = {"kind": "value", "v": {"t": "bool", "v": rng.random() < 0.5}}
+            cands = [f] if class_applies(cls, f) else []
+        if not cands and cls != "unknown":
+            continue
+        sort_fields(fields)
+        target = rng.choice(cands) if cands else None
+        cfg, api = gen_cfg(rng)
+        force = target["name"] if target is not None and cls not in ("negflag",) else None
+        c = make_case(rng, fields, cfg, api, force=force)
+        if c is not None:
+            return c, target
+    raise RuntimeError("generator could not build a case for " + cls)
+
+
+# ----------------------------------------------------------------------------------------------
+# the mutations
+
+def bad_token_for(rng, it):
+    if it["k"] == "enum":
+        return rng.choice(value_tokens(it))
+    if it["k"] == "union":
+        return rng.choice(["abc", "", "1,5", "0x10", "1.2.3"])
+    return rng.choice(GARBAGE[it["k"]])
+
+
+def mutate(rng, c, cls, f):
+    """returns (subkind, argv, form)"""
+    fields, asg, cfg = c["fields"], c["asg"], c["cfg"]
+    order, eq = list(c["order"]), list(c["eq"])
+    if cls == "unknown":
+        known = all_spellings(cfg, fields)
+        names = [x["name"] for x in fields]
+        cand = ["--zzz", "--unknown_opt", "--qq.x", "-Z", "--nx", "--config.zzz"]
+        cand += ["--" + n + "x" for n in names] + ["--config." + n + "x" for n in names]
+        for n in names:
+            if "_" in n and cfg["dash"] == "UNDERSCORE":
+                cand.append(opt_of(cfg, n).replace("_", "-"))
+            if "_" in n and cfg["dash"] == "DASH":
+                cand.append(opt_of(cfg, n).replace("-", "_").replace("__", "--", 1))
+        cand = [u for u in cand if not any(o.startswith(u) for o in known) and u not in known]
         u = rng.choice(cand)
-        extra = [u] + rng.choice([[], ["1"], ["x"]])
-        argv = c02.render(fields, asg2, order, eq)
-        pos = rng.randrange(len(argv) + 1) if rng.random() < 0.3 else len(argv)
-        return kind, argv[:pos] + extra + argv[pos:]
+        form = "space"
+        if rng.random() < 0.3 and u.startswith("--"):
+            extra, form = [u + "=" + rng.choice(["1", "x", ""])], "eq"
+        else:
+            extra = [u] + rng.choice([[], ["1"], ["x"]])
+        argv = list(c["argv"])
+        pos = rng.randrange(len(argv) + 1) if rng.random() < 0.5 else len(argv)
+        sub = "near-miss" if u not in ("--zzz", "--unknown_opt", "--qq.x", "-Z", "--nx", "--config.zzz") else "fresh"
+        return "unknown:" + sub, argv[:pos] + extra + argv[pos:], form
     nm = f["name"]
-    inner = f["ty"]["inner"] if f["ty"]["k"] == "opt" else f["ty"]
-    if kind == "required":
-        del asg2[nm]
-        order = [o for o in order if o != nm]
-        eq = eq[: len(order)]
-        return kind, c02.render(fields, asg2, order, eq)
-    argv_segments = {}
-    for o, e in zip(order, eq):
-        argv_segments[o] = c02.render(fields, {o: asg2[o]}, [o], [e])
-    seg = argv_segments.get(nm, [])
-    opt = ("-" if len(nm) == 1 else "--") + nm
-    if kind == "illtyped":
-        bad = rng.choice(GARBAGE[inner["k"]])
-        seg = [opt, bad] if rng.random() < 0.5 else [f"{opt}={bad}"]
-    elif kind == "illtyped-item":
-        toks = G.tokens(asg2[nm])
-        if inner["k"] == "tuple":
-            idxs = [i for i, it in enumerate(inner["items"]) if it["k"] in ("int", "float", "bool")]
-            i = rng.choice(idxs)
-            toks[i] = rng.choice(GARBAGE[inner["items"][i]["k"]])
+    inner = inner_of(f["ty"])
+    k = inner["k"]
+    opt = opt_of(cfg, nm)
+    if cls == "required":
+        asg2 = {a: b for a, b in asg.items() if a != nm}
+        order2 = [o for o in order if o != nm]
+        return "required", render(cfg, fields, asg2, order2, eq[: len(order2)]), "none"
+    segs = {o: render(cfg, fields, {o: asg[o]}, [o], [e]) for o, e in zip(order, eq)}
+    form = "space"
+    sub = cls
+    if cls == "illtyped":
+        if k in ("int", "float", "bool", "union", "enum"):
+            bad = bad_token_for(rng, inner)
+            sub = "illtyped:" + ("scalar" if k in ("int", "float", "bool") else k)
+            if rng.random() < 0.5:
+                seg = [opt, bad]
+            else:
+                seg, form = [f"{opt}={bad}"], "eq"
+        elif k in ("list", "vtuple"):
+            toks = G.tokens(asg[nm])
+            if not toks:
+                toks = [G.token(G.gen_scalar(rng, inner["item"]))]
+            toks[rng.randrange(len(toks))] = bad_token_for(rng, inner["item"])
+            seg, sub = [opt] + toks, "illtyped:item"
+        else:  # tuple
+            toks = G.tokens(asg[nm])
+            items = inner["items"]
+            swaps = [(i, j) for i in range(len(items)) for j in range(len(items))
+                     if i != j and not valid_for(items[i], toks[j])]
+            idxs = [i for i, it in enumerate(items) if it["k"] in ("int", "float", "bool") or (it["k"] == "enum" and value_tokens(it))]
+            if swaps and (not idxs or rng.random() < 0.4):
+                i, j = rng.choice(swaps)
+                toks[i], toks[j] = toks[j], toks[i]
+                sub = "illtyped:tuple-swap"
+            else:
+                i = rng.choice(idxs)
+                toks[i] = bad_token_for(rng, items[i])
+                sub = "illtyped:tuple-pos"
+            if len(toks) == 1 and rng.random() < 0.5 and G.expressible_token(toks[0]):
+                seg, form = [f"{opt}={toks[0]}"], "eq"
+            else:
+                seg = [opt] + toks
+    elif cls == "arity":
+        toks = G.tokens(asg[nm])
+        n = len(inner["items"])
+        r = rng.random()
+        if r < 0.4:
+            seg, sub = [opt] + toks + [toks[-1]], "arity+"
+        elif r < 0.8 or n == 1:
+            seg, sub = [opt] + toks[:-1], "arity-"
+            if n == 1 and r >= 0.8:
+                seg, sub, form = [f"{opt}={toks[0]}", toks[0]], "arity+", "eq"
         else:
-            i = rng.randrange(len(toks))
-            toks[i] = rng.choice(GARBAGE[inner["item"]["k"]])
-        if any(t == "" for t in toks) and False:
-            pass
-        seg = [opt] + toks
-    elif kind == "arity+":
-        toks = G.tokens(asg2[nm])
-        seg = [opt] + toks + [toks[-1] if toks else "1"]
-    elif kind == "arity-":
-        toks = G.tokens(asg2[nm])
-        seg = [opt] + toks[:-1]
-    elif kind == "choice":
-        if inner["k"] == "enum":
-            bad = rng.choice(["NOPE", inner["members"][0].swapcase(), inner["members"][0] + "x", "0x"])
+            seg, sub, form = [f"{opt}={toks[0]}"] + (toks[1:] if rng.random() < 0.5 else []), "arity-eq", "eq"
+    elif cls == "choice":
+        if k == "enum":
+            m = inner["members"]
+            pool = ["NOPE", m[0].swapcase(), m[0] + "x", "0x", m[-1][:-1], ""] + value_tokens(inner)
+            bad = rng.choice([b for b in pool if b not in m])
+            sub = "choice:enum"
+        elif k == "literal":
+            names = [G.token(v) for v in inner["vals"]]
+            pool = ["nope", "99", "TRUE", "a b", names[0] + "0", names[0].swapcase(), " " + names[0], ""]
+            bad = rng.choice([b for b in pool if b not in names])
+            sub = "choice:literal"
         else:
-            bad = rng.choice(["nope", "99", "TRUE", "a b"])
-        if bad in [G.token(v) for v in inner.get("vals", [])] or bad in inner.get("members", []):
-            bad = "definitely-not"[9:]
-        seg = [opt, bad]
-    elif kind == "choice-item":
-        toks = G.tokens(asg2[nm])
-        toks[rng.randrange(len(toks))] = "NOPE"
-        seg = [opt] + toks
-    elif kind == "negflag":
-        seg = [rng.choice([f"--no{nm}=true", f"--no{nm}=0"])] if rng.random() < 0.5 else [f"--no{nm}", rng.choice(["true", "False", "1"])]
+            bad = None
+        if bad is not None:
+            if rng.random() < 0.5 or bad.startswith("-"):
+                seg = [opt, bad]
+            else:
+                seg, form = [f"{opt}={bad}"], "eq"
+        else:
+            toks = G.tokens(asg[nm])
+            if k == "tuple":
+                idxs = [i for i, it in enumerate(inner["items"]) if it["k"] == "enum"]
+                i = rng.choice(idxs)
+                e = inner["items"][i]
+            else:
+                if not toks:
+                    toks = [inner["item"]["members"][0]]
+                i = rng.randrange(len(toks))
+                e = inner["item"]
+            pool = ["NOPE", e["members"][0] + "x", e["members"][0].swapcase()] + value_tokens(e)
+            toks[i] = rng.choice([b for b in pool if b not in e["members"]])
+            seg, sub = [opt] + toks, "choice:item"
+    elif cls == "negflag":
+        neg = neg_of(opt)
+        w = rng.choice(BOOL_WORDS + ["True", "False"]) if rng.random() < 0.85 else rng.choice(GARBAGE["bool"])
+        if rng.random() < 0.5:
+            seg, form = [f"{neg}={w}"], "eq"
+        else:
+            seg = [neg, w]
+    else:
+        raise ValueError(cls)
     argv = []
     for o in order:
-        argv += seg if o == nm else argv_segments[o]
+        argv += seg if o == nm else segs[o]
     if nm not in order:
-        argv += seg
-    return kind, argv
+        pos = rng.randrange(len(order) + 1)
+        argv = []
+        for i, o in enumerate(order):
+            if i == pos:
+                argv += seg
+            argv += segs[o]
+        if pos == len(order):
+            argv += seg
+    return sub, argv, form
+
+
+def ty_tag(t):
+    inner = inner_of(t)
+    k = inner["k"]
+    if k == "tuple":
+        hetero = len({str(sorted(i.items())) for i in inner["items"]}) > 1
+        k = "tuple-hetero" if hetero else "tuple-homog"
+    return ("opt-" if t["k"] == "opt" else "") + k
+
+
+def gen_fields_case(rng):
+    r = rng.random()
+    if r < 0.12:
+        c, _ = gen_base(rng, "unknown")
+        return dict(c, mutation="control", sub="control", form="none")
+    if r < 0.22:
+        c, _ = gen_base(rng, "unknown")
+        opts = [opt_of(c["cfg"], f["name"]) for f in c["fields"]]
+        toks = []
+        for _ in range(rng.choice([1, 2, 3, 4, 6])):
+            q = rng.random()
+            if q < 0.45:
+                toks.append(rng.choice(opts))
+            elif q < 0.55:
+                toks.append(rng.choice(opts) + "=" + rng.choice(["1", "x", "", "RED", "true"]))
+            else:
+                toks.append(rng.choice(["1", "2", "x", "RED", "fast", "true", "0.5", "a/b", "-3", "abc", "", "UP", "zero", "0"]))
+        return dict(c, mutation="random", sub="random", form="none", argv=toks)
+    cls = rng.choice(CLASSES)
+    c, f = gen_base(rng, cls)
+    sub, argv, form = mutate(rng, c, cls, f)
+    out = dict(c, mutation=cls, sub=sub, form=form, argv=argv)
+    if f is not None:
+        out["target"] = f["name"]
+    return out
+
+
+# ---- (b) nested dataclass + subgroup (oracle only) ---------------------------------------------
+
+SIMPLE = [{"k": "int"}, {"k": "float"}, {"k": "str"}, {"k": "bool"}, {"k": "tuple", "items": [{"k": "int"}, {"k": "int"}]},
+          {"k": "list", "item": {"k": "int"}}, dict(G.ENUMS[0]), {"k": "opt", "inner": {"k": "int"}}]
+
+
+def gen_small_class(rng, names, p_required=0.25):
+    fs = []
+    for nm in names:
+        t = copy.deepcopy(rng.choice(SIMPLE))
+        d = gen_default(rng, t, p_required)
+        fs.append({"name": nm, "ty": t, "default": d})
+    return sort_fields(fs)
+
+
+def gen_nested_case(rng):
+    pool = [n for n in G.NAMES if n != "mode"]   # `--mode` would abbreviate `--model` in the subgroup pre-parse
+    rng.shuffle(pool)
+    take = lambda n: [pool.pop() for _ in range(n)]   # noqa: E731
+    outer = gen_small_class(rng, take(rng.choice([0, 1, 2])))
+    inner = gen_small_class(rng, take(rng.choice([1, 2, 3])))
+    alt_a = gen_small_class(rng, take(rng.choice([1, 2])), 0.15)
+    alt_b = gen_small_class(rng, take(rng.choice([1, 2])), 0.15)
+    sub_default = rng.choice(["ka", "kb", None])
+    chosen = rng.choice(["ka", "kb"]) if sub_default is None or rng.random() < 0.6 else None
+    spec = {"outer": outer, "inner": inner, "alts": {"ka": alt_a, "kb": alt_b}, "sub_default": sub_default}
+    active_key = chosen or sub_default
+    active = {"ka": alt_a, "kb": alt_b}[active_key]
+    inactive = {"ka": alt_b, "kb": alt_a}[active_key]
+    # a valid argv
+    segs = []
+    where = {}
+    for grp, fs in (("outer", outer), ("inner", inner), ("active", active)):
+        for f in fs:
+            must = f["default"]["kind"] == "missing" and f["ty"]["k"] != "opt"
+            if must or rng.random() < 0.5:
+                for _ in range(30):
+                    v = G.gen_value(rng, f["ty"], allow_none=False)
+                    toks = G.tokens(v)
+                    if toks is not None and all(G.expressible_token(t) for t in toks):
+                        break
+                else:
+                    return None
+                segs.append((f["name"], ["--" + f["name"]] + toks if len(f["name"]) > 1 else ["-" + f["name"]] + toks))
+                where[f["name"]] = (grp, f)
+    if chosen is not None:
+        segs.append(("model", ["--model", chosen]))
+    rng.shuffle(segs)
+    valid = [t for _, s in segs for t in s]
+    kinds = ["control", "subgroup-key", "unknown", "unselected"]
+    typed = [nm for nm, (g, f) in where.items() if inner_of(f["ty"])["k"] in ("int", "float", "bool")]
+    req = [nm for nm, (g, f) in where.items() if f["default"]["kind"] == "missing" and f["ty"]["k"] != "opt"]
+    if typed:
+        kinds += ["illtyped", "illtyped"]
+    if req:
+        kinds += ["required", "required"]
+    if sub_default is None:
+        kinds.append("required-subgroup")
+    kind = rng.choice(kinds)
+    argv = valid
+    if kind == "subgroup-key":
+        bad = rng.choice(["zz", "KA", "k", "ka ", "kc", ""])
+        argv = [t for nm, s in segs if nm != "model" for t in s]
+        pos = rng.randrange(len(argv) + 1)
+        argv = argv[:pos] + (["--model", bad] if rng.random() < 0.5 else [f"--model={bad}"]) + argv[pos:]
+    elif kind == "unknown":
+        argv = valid + [rng.choice(["--zzz", "--modelx", "--inner.zzz"])] + rng.choice([[], ["1"]])
+    elif kind == "unselected":
+        f = rng.choice(inactive)
+        v = None
+        for _ in range(30):
+            v = G.gen_value(rng, f["ty"], allow_none=False)
+            toks = G.tokens(v)
+            if toks is not None and all(G.expressible_token(t) for t in toks):
+                break
+        argv = valid + [("--" if len(f["name"]) > 1 else "-") + f["name"]] + (G.tokens(v) or [])
+    elif kind == "illtyped":
+        nm = rng.choice(typed)
+        f = where[nm][1]
+        argv = []
+        for n2, s in segs:
+            argv += [s[0], rng.choice(GARBAGE[inner_of(f["ty"])["k"]])] if n2 == nm else s
+    elif kind == "required":
+        nm = rng.choice(req)
+        argv = [t for n2, s in segs if n2 != nm for t in s]
+    elif kind == "required-subgroup":
+        argv = [t for n2, s in segs if n2 != "model" for t in s]
+        # options of the (then unselected) alternative would be unknown as well: still a rejection
+    return {"op": "nested.parse", "model": False,
+            "case": dict(spec, argv=argv, mutation=kind, active=active_key if kind != "required-subgroup" else None)}
+
+
+# ---- (c) the engine against stdlib argparse ----------------------------------------------------
+
+ENGINE_ENUMS = [("Color", ["RED", "GREEN", "BLUE"]), ("Heading", ["NORTH", "SOUTH", "true", "0"])]
 
 
 def gen_engine_case(rng):
@@ -164,180 +638,368 @@ def gen_engine_case(rng):
         if rng.random() < 0.2 and len(nm) > 1 and short not in used_short:
             used_short.add(short)
             opts.append(short)
-        conv = rng.choice(["int", "float", "str", "str", "bool"])
+        dest = "d_" + nm.replace("-", "D").replace(".", "P")
+        if rng.random() < 0.15 and "." not in nm:
+            # simple-parsing's BooleanOptionalAction (nargs='?', type=str2bool, --no<name> negative options)
+            negs = []
+            for o in opts:
+                ng = "--no" + o.lstrip("-")
+                if ng not in negs:
+                    negs.append(ng)
+            r = rng.random()
+            default = {"t": "none"} if r < 0.3 else {"t": "bool", "v": r < 0.65}
+            table.append({"opts": opts + negs, "pos": opts, "negs": negs, "dest": dest, "kind": "bool", "nargs": "?",
+                          "conv": {"k": "bool"}, "choices": None, "required": rng.random() < 0.15, "default": default})
+            continue
+        ck = rng.choice(["int", "float", "str", "str", "bool", "path", "enum", "union", "tuple"])
         nargs = rng.choice([None, None, "?", "*", "+", 1, 2, 3])
+        if ck == "enum":
+            cls, members = rng.choice(ENGINE_ENUMS)
+            conv = {"k": "enum", "cls": cls, "members": members}
+        elif ck == "union":
+            alts = rng.choice([["int", "str"], ["int", "float"], ["float", "int"], ["bool", "int"], ["int", "bool", "str"]])
+            conv = {"k": "union", "alts": [{"k": a} for a in alts]}
+        elif ck == "tuple":
+            alts = rng.choice([["int", "str"], ["str", "int"], ["int", "float", "bool"], ["bool", "str"], ["float", "str", "int"]])
+            conv = {"k": "tuple", "alts": [{"k": a} for a in alts]}
+            nargs = len(alts) if rng.random() < 0.75 else rng.choice(["*", "+", 1])
+        else:
+            conv = {"k": ck}
         choices = None
-        if conv == "str" and rng.random() < 0.3:
+        if ck == "str" and rng.random() < 0.3:
             choices = rng.sample(["a", "b", "c", "1", ""], 3)
         r = rng.random()
         if r < 0.15:
             default, required = {"t": "none"}, True
         elif r < 0.45:
             default, required = {"t": "none"}, False
-        elif r < 0.7:
-            default, required = {"t": "str", "v": rng.choice(["1", "x", "2.5", "true", ""])}, False
+        elif r < 0.7 or ck not in ("int", "float", "str", "bool"):
+            default, required = {"t": "str", "v": rng.choice(["1", "x", "2.5", "true", "", "RED", "a/b"])}, False
         else:
             default = {"int": {"t": "int", "v": "3"}, "float": {"t": "float", "v": "0.5"}, "str": {"t": "str", "v": "dflt"},
-                       "bool": {"t": "bool", "v": True}}[conv]
+                       "bool": {"t": "bool", "v": True}}[ck]
             required = False
-        table.append({"opts": opts, "dest": "d_" + nm.replace("-", "D").replace(".", "P"), "kind": "store", "nargs": nargs,
-                      "conv": {"k": conv}, "choices": choices, "required": required, "default": default})
-    all_opts = [o for a in table for o in a["opts"]]
+        table.append({"opts": opts, "dest": dest, "kind": "store", "nargs": nargs, "conv": conv, "choices": choices,
+                      "required": required, "default": default})
+    real_opts = [o for a in table[1:] for o in a["opts"]]
+    all_opts = real_opts or ["--help"]
+    VALS = {"int": ["1", "2", "-3", "+4", "1_000", " 7 "], "float": ["0.5", "1e3", "nan", "2"], "str": ["x", "a", "b", "c", ""],
+            "bool": ["true", "no", "0", "Y"], "path": ["a/b", "f.txt", "x"], "enum": ["RED", "NORTH", "0", "true"]}
+
+    def plausible(conv, j):
+        k = conv["k"]
+        if k in ("union", "tuple"):
+            alts = conv["alts"]
+            k = alts[j % len(alts)]["k"] if k == "tuple" else rng.choice(alts)["k"]
+        return rng.choice(VALS[k])
+
     toks = []
     for _ in range(rng.choice([0, 1, 2, 3, 4, 5, 6, 8])):
         r = rng.random()
-        if r < 0.35:
-            toks.append(rng.choice(all_opts))
+        if r < 0.012:
+            toks.append(rng.choice(["-h", "--help", "--he", "--help=1"]))   # help requests: ~3% of the cases
+        elif r < 0.35:
+            a = rng.choice(table[1:])
+            toks.append(rng.choice(a["opts"]))
+            if rng.random() < 0.6:
+                # mostly followed by as many plausible value tokens as the action takes (off by one now and then)
+                n = a["nargs"]
+                cnt = {None: 1, "?": rng.choice([0, 1]), "*": rng.choice([0, 1, 2, 3]), "+": rng.choice([1, 2, 3])}.get(n, n)
+                if rng.random() < 0.15:
+                    cnt = max(0, cnt + rng.choice([-1, 1]))
+                toks += [plausible(a["conv"], j) for j in range(cnt)]
         elif r < 0.45:
             o = rng.choice(all_opts)
             toks.append(o[: rng.randrange(2, len(o) + 1)] if len(o) > 2 else o)
         elif r < 0.55:
-            toks.append(rng.choice(all_opts) + "=" + rng.choice(["1", "", "x", "-2", "a=b", "true"]))
+            toks.append(rng.choice(all_opts) + "=" + rng.choice(["1", "", "x", "-2", "a=b", "true", "RED"]))
         elif r < 0.6:
             toks.append(rng.choice(["--", "-", "", "--zz", "-q", "--a b", "-5", "-.5", "-1.5", "-x5", "--=", "=x"]))
         else:
-            toks.append(rng.choice(["1", "2", "-3", "0.5", "x", "a", "b", "c", "true", "no", "1e3", "abc", " 7 ", "1_000", "+4", "nan", "inf"]))
+            toks.append(rng.choice(["1", "2", "-3", "0.5", "x", "a", "b", "c", "true", "no", "1e3", "abc", " 7 ", "1_000", "+4",
+                                    "nan", "inf", "RED", "NORTH", "0", "a/b", "f.txt"]))
     return {"op": "engine.run", "case": {"table": table, "argv": toks, "strict": rng.random() < 0.5}}
 
 
 def gen(rng, tier):
-    n = 450 if tier == "quick" else 25000
-    for i in range(n):
-        fields = c02.gen_fields(rng)
-        base = c02.make_case(rng, fields, api=rng.choice(["parse", "parser"]))["case"]
-        r = rng.random()
-        if r < 0.15:
-            c = dict(base, mutation="control")
-        elif r < 0.27:
-            # random token stream
-            opts = [("-" if len(f["name"]) == 1 else "--") + f["name"] for f in fields]
-            toks = []
-            for _ in range(rng.choice([1, 2, 3, 4, 6])):
-                q = rng.random()
-                if q < 0.45:
-                    toks.append(rng.choice(opts))
-                elif q < 0.55:
-                    toks.append(rng.choice(opts) + "=" + rng.choice(["1", "x", "", "RED", "true"]))
-                else:
-                    toks.append(rng.choice(["1", "2", "x", "RED", "fast", "true", "0.5", "a/b", "-3", "abc", "", "UP", "zero", "0"]))
-            c = dict(base, mutation="random", argv=toks)
-        else:
-            m = mutate(rng, base)
-            c = dict(base, mutation=m[0], argv=m[1])
-        yield {"op": "fields.parse", "case": c}
-    m = 600 if tier == "quick" else 30000
+    n = 520 if tier == "quick" else 14000
+    for _ in range(n):
+        yield {"op": "fields.parse", "case": gen_fields_case(rng)}
+    k = 120 if tier == "quick" else 3000
+    for _ in range(k):
+        c = gen_nested_case(rng)
+        if c is not None:
+            yield c
+    m = 600 if tier == "quick" else 16000
     for _ in range(m):
         yield gen_engine_case(rng)
 
 
 # -----------------------------------------------------------------------------------------------
+# running the real code
 
-CONV = {"int": int, "float": float, "str": str}
+def enums_of(fields):
+    out = {}
+
+    def walk(t):
+        if t["k"] == "enum":
+            out[t["cls"]] = (t["members"], t.get("values"))
+        for key in ("inner", "item"):
+            if key in t:
+                walk(t[key])
+        for key in ("items", "alts"):
+            for x in t.get(key, []):
+                walk(x)
+
+    for f in fields:
+        walk(f["ty"])
+    return out
+
+
+def build(fields, name="C", universe=None):
+    u = universe or Universe()
+    for cls, (members, values) in enums_of(fields).items():
+        u.enum(cls, members, values)
+    return u, u.add_class(name, {"name": name, "fields": [dict(f) for f in fields]})
+
+
+def inst_fields(inst):
+    return [[f.name, sp.cv(getattr(inst, f.name))] for f in dataclasses.fields(inst)]
+
+
+def run_parse(c, argv):
+    import simple_parsing
+
+    u, cls = build(c["fields"])
+    sp.reset_globals()
+    if c["api"] == "parse":
+        r = sp.run_outcome(lambda: simple_parsing.parse(cls, args=argv, dest="config"))
+        inst = r.get("value")
+    else:
+        parser = sp.make_parser(c["cfg"])
+        parser.add_arguments(cls, dest="config")
+        sp.decoy(c["cfg"])   # a parser constructed later with other settings must not change this one's options
+        r = sp.run_outcome(lambda: parser.parse_args(argv))
+        inst = getattr(r["value"], "config") if r["o"] == "ok" else None
+    if r["o"] == "ok":
+        return {"o": "ok", "fields": inst_fields(inst)}
+    return {k: v for k, v in r.items() if k != "value"}
+
+
+def run_nested(c):
+    import simple_parsing
+    from simple_parsing import subgroups
+
+    u = Universe()
+    _, inner = build(c["inner"], "Inner", u)
+    _, ka = build(c["alts"]["ka"], "AltA", u)
+    _, kb = build(c["alts"]["kb"], "AltB", u)
+    flds = []
+    for cls, (members, values) in enums_of(c["outer"]).items():
+        u.enum(cls, members, values)
+    for f in c["outer"]:
+        d = f["default"]
+        fld = dataclasses.field() if d["kind"] == "missing" else (
+            dataclasses.field(default_factory=(lambda v: (lambda: list(v)))(u.val(d["v"]))) if isinstance(u.val(d["v"]), list)
+            else dataclasses.field(default=u.val(d["v"])))
+        flds.append((f["name"], u.ty(f["ty"]), fld))
+    inner_required = any(f["default"]["kind"] == "missing" for f in c["inner"])
+    sub = subgroups({"ka": ka, "kb": kb}) if c["sub_default"] is None else subgroups({"ka": ka, "kb": kb}, default=c["sub_default"])
+    tail = [("inner", inner, dataclasses.field() if inner_required else dataclasses.field(default_factory=inner)),
+            ("model", Union[ka, kb], sub)]
+    # fields without a default first
+    allf = flds + tail
+    allf.sort(key=lambda x: not (x[2].default is dataclasses.MISSING and x[2].default_factory is dataclasses.MISSING))
+    outer = dataclasses.make_dataclass("Outer", allf)
+    sp.reset_globals()
+    parser = sp.make_parser({"dash": "UNDERSCORE"})
+    parser.add_arguments(outer, dest="config")
+    r = sp.run_outcome(lambda: parser.parse_args(c["argv"]))
+    if r["o"] == "ok":
+        inst = r["value"].config
+        return {"o": "ok", "outer": [[f["name"], sp.cv(getattr(inst, f["name"]))] for f in c["outer"]],
+                "inner_cls": type(inst.inner).__name__, "inner": inst_fields(inst.inner) if dataclasses.is_dataclass(inst.inner) else None,
+                "model_cls": type(inst.model).__name__, "model": inst_fields(inst.model) if dataclasses.is_dataclass(inst.model) else None}
+    return {k: v for k, v in r.items() if k != "value"}
+
+
+CONV = {"int": int, "float": float, "str": str, "path": pathlib.Path}
+
+
+def engine_type(conv, made):
+    """the REAL type= callable simple-parsing would hand to argparse for this converter"""
+    from simple_parsing.utils import str2bool
+    from simple_parsing.wrappers import field_parsing as FP
+
+    k = conv["k"]
+    if k in CONV:
+        return CONV[k]
+    if k == "bool":
+        return str2bool
+    py = {"int": int, "float": float, "str": str, "bool": bool}
+    if k == "enum":
+        e = _enum.Enum(conv["cls"], {m: i for i, m in enumerate(conv["members"])})
+        made.append(e)
+        return FP.parse_enum(e)
+    if k == "union":
+        return FP.get_parsing_fn(Union[tuple(py[a["k"]] for a in conv["alts"])])
+    if k == "tuple":
+        return FP.parse_tuple(tuple(py[a["k"]] for a in conv["alts"]))
+    raise ValueError(k)
 
 
 def run_engine(c):
-    from simple_parsing.utils import str2bool
+    from simple_parsing.helpers.custom_actions import BooleanOptionalAction
+    from simple_parsing.wrappers import field_parsing as FP
 
     p = argparse.ArgumentParser(prog="p", add_help=True)
+    made = []
+    negs_ok = True
     for a in c["table"]:
         if a["kind"] == "help":
             continue
-        kw = {"dest": a["dest"], "nargs": a["nargs"], "type": CONV.get(a["conv"]["k"], str2bool), "required": a["required"]}
+        d = a["default"]
+        dv = None if d["t"] == "none" else ({"int": int, "float": float}.get(d["t"], lambda x: x)(d["v"]))
+        if a["kind"] == "bool":
+            act = p.add_argument(*a["pos"], dest=a["dest"], action=BooleanOptionalAction, required=a["required"], default=dv)
+            negs_ok = negs_ok and list(act.negative_option_strings) == a["negs"] and list(act.option_strings) == a["opts"]
+            continue
+        kw = {"dest": a["dest"], "nargs": a["nargs"], "type": engine_type(a["conv"], made), "required": a["required"], "default": dv}
         if a["choices"] is not None:
             kw["choices"] = a["choices"]
-        d = a["default"]
-        kw["default"] = None if d["t"] == "none" else ({"int": int, "float": float}.get(d["t"], lambda x: x)(d["v"]))
         p.add_argument(*a["opts"], **kw)
     fn = (lambda: p.parse_args(c["argv"])) if c["strict"] else (lambda: p.parse_known_args(c["argv"]))
-    r = sp.run_outcome(fn)
+    try:
+        r = sp.run_outcome(fn)
+    finally:
+        for e in made:
+            FP._parsing_fns.pop(e, None)
     if r["o"] == "ok":
         v = r["value"]
         ns, extras = (v, []) if c["strict"] else v
-        return {"o": "ok", "ns": sorted([[k, sp.cv(x)] for k, x in vars(ns).items()]), "extras": list(extras)}
-    return {k: v for k, v in r.items() if k != "value"}
+        return {"o": "ok", "ns": sorted([[k, sp.cv(x)] for k, x in vars(ns).items()]), "extras": list(extras), "negs_ok": negs_ok}
+    return dict({k: v for k, v in r.items() if k != "value"}, negs_ok=negs_ok)
 
 
 def impl(case):
     c = case["case"]
     if case["op"] == "engine.run":
         return run_engine(c)
-    return c02.run_parse(c, c["argv"])
+    if case["op"] == "nested.parse":
+        return run_nested(c)
+    return run_parse(c, c["argv"])
 
 
 def model_case(case, obs):
     c = case["case"]
+    toks = list(c["argv"])
+    for a in c["argv"]:
+        if "=" in a:
+            toks.append(a.split("=", 1)[1])
     if case["op"] == "engine.run":
-        toks = list(c["argv"])
         for a in c["argv"]:
-            if "=" in a:
-                toks.append(a.split("=", 1)[1])
             toks.append(a[2:])
         for a in c["table"]:
             if a["default"] and a["default"]["t"] == "str":
                 toks.append(a["default"]["v"])
         return dict(c, floats=G.floats_table(toks))
-    return c02.model_case(case, obs)
+    for f in c["fields"]:
+        d = f["default"]
+        if d["kind"] != "missing" and d["v"]["t"] == "str":
+            toks.append(d["v"]["v"])
+    return {"cfg": c["cfg"], "dest": "config", "fields": c["fields"], "argv": c["argv"], "floats": G.floats_table(toks)}
 
 
 def project(case, obs):
-    if case["op"] == "engine.run":
-        if obs["o"] == "ok":
+    if obs["o"] == "ok":
+        if case["op"] == "engine.run":
             return {"o": "ok", "ns": obs["ns"], "extras": obs["extras"]}
-        if obs["o"] == "exit":
-            return {"o": "exit", "code": obs["code"]}
-        return {"o": "raise", "exc": obs["exc"]}
-    return c02.project(case, obs)
+        return {"o": "ok", "fields": obs["fields"]}
+    if obs["o"] == "exit":
+        return {"o": "exit", "code": obs["code"]}
+    return {"o": "raise", "exc": obs["exc"]}
 
 
 def project_model(case, mo):
-    if case["op"] == "engine.run":
-        if mo.get("o") == "ok":
-            return {"o": "ok", "ns": sorted(mo["ns"]), "extras": mo["extras"]}
-        if mo.get("o") == "exit":
-            return {"o": "exit", "code": mo["code"]}
-        return mo
-    return c02.project_model(case, mo)
+    if mo.get("o") == "exit":
+        return {"o": "exit", "code": mo["code"]}
+    if case["op"] == "engine.run" and mo.get("o") == "ok":
+        return {"o": "ok", "ns": sorted(mo["ns"]), "extras": mo["extras"]}
+    return mo
 
 
 def model_unmodelled(mo):
     return mo.get("o") == "unmodelled"
 
 
-def oracle(case, obs):
-    c = case["case"]
+# -----------------------------------------------------------------------------------------------
+# the property itself
+
+def status_clauses(argv, obs, help_strings=("-h", "--help")):
+    """clauses on a rejection: status 2 (0 only for an explicit help request), message on stderr, never a traceback"""
     fails = []
-    if case["op"] == "engine.run":
-        return fails
-    mut = c["mutation"]
-    help_requested = any(a in ("-h", "--help") for a in c["argv"])
+    help_requested = any(a in help_strings or (a.startswith("--h") and "--help".startswith(a.split("=", 1)[0])) for a in argv)
     if obs["o"] == "raise":
         fails.append({"clause": "no-traceback", "exc": obs.get("exc"),
-                      "detail": f"argv {c['argv']} escaped as {obs.get('exc')}: {obs.get('msg')}"})
-        return fails
-    if obs["o"] == "exit":
+                      "detail": f"argv {argv} escaped as {obs.get('exc')}: {obs.get('msg')}"})
+    elif obs["o"] == "exit":
         if obs["code"] == 0 and not help_requested:
-            fails.append({"clause": "status", "detail": f"argv {c['argv']} exited with status 0 without --help"})
+            fails.append({"clause": "status", "detail": f"argv {argv} exited with status 0 without --help"})
         elif obs["code"] not in (0, 2):
-            fails.append({"clause": "status", "detail": f"argv {c['argv']} exited with status {obs['code']}"})
+            fails.append({"clause": "status", "detail": f"argv {argv} exited with status {obs['code']}"})
         elif obs["code"] == 2 and not obs.get("stderr_nonempty"):
             fails.append({"clause": "stderr", "detail": "rejected without a message on stderr"})
-        if mut == "control":
-            fails.append({"clause": "control", "detail": f"valid argv {c['argv']} was rejected: {obs}"})
+    return fails
+
+
+def conformance(fields, got, argv):
+    fails = []
+    for f in fields:
+        v = got[f["name"]]
+        if f["default"]["kind"] != "missing" and v == f["default"]["v"]:
+            continue  # the field's own (possibly deliberately odd) default
+        if not G.value_type_ok(v, f["ty"]):
+            fails.append({"clause": "well-typed", "field": f["name"],
+                          "detail": f"{f['name']}: {v} does not conform to {f['ty']} (argv {argv})"})
+    return fails
+
+
+def oracle(case, obs):
+    c = case["case"]
+    if case["op"] == "engine.run":
+        fails = []
+        if not obs.get("negs_ok", True):
+            fails.append({"clause": "engine-negs", "detail": "BooleanOptionalAction built other negative option strings than --no<name>"})
+        # the status clause of the property holds for argparse with simple-parsing's callables on ANY table
+        if obs["o"] == "raise":
+            fails.append({"clause": "no-traceback", "exc": obs.get("exc"), "detail": f"engine argv {c['argv']} escaped as {obs.get('exc')}: {obs.get('msg')}"})
+        if obs["o"] == "exit" and obs["code"] not in (0, 2):
+            fails.append({"clause": "status", "detail": f"engine argv {c['argv']} exited with status {obs['code']}"})
+        return fails
+    mut = c["mutation"]
+    fails = status_clauses(c["argv"], obs)
+    if obs["o"] != "ok":
+        # (a rejected CONTROL is not a C04 failure — accepting valid command lines is C02's claim; it is reported as the
+        #  distribution tag `ctl:rejected`, which must stay at 0 for the mutation stream to mean anything)
         return fails
     # accepted
     if mut not in ("control", "random"):
         fails.append({"clause": "rejects:" + mut, "mutation": mut,
-                      "detail": f"mutation {mut}: argv {c['argv']} was accepted: {obs['fields']}"})
-    got = dict((k, v) for k, v in obs["fields"])
-    for f in c["fields"]:
-        v = got[f["name"]]
-        if f["default"]["kind"] != "missing" and v == f["default"]["v"]:
-            continue  # the field's own (possibly deliberately odd) default
-        if v["t"] == "none" and f["default"]["kind"] == "missing":
-            continue
-        if not G.value_type_ok(v, f["ty"]):
-            fails.append({"clause": "well-typed", "field": f["name"],
-                          "detail": f"{f['name']}: {v} does not conform to {f['ty']} (argv {c['argv']})"})
+                      "detail": f"mutation {c.get('sub', mut)}: argv {c['argv']} was accepted: {obs}"})
+    if case["op"] == "nested.parse":
+        fails += conformance(c["outer"], dict(obs["outer"]), c["argv"])
+        if obs["inner_cls"] != "Inner":
+            fails.append({"clause": "well-typed", "field": "inner", "detail": f"inner is a {obs['inner_cls']}"})
+        else:
+            fails += conformance(c["inner"], dict(obs["inner"]), c["argv"])
+        want = {"ka": "AltA", "kb": "AltB"}
+        if obs["model_cls"] not in want.values():
+            fails.append({"clause": "well-typed", "field": "model", "detail": f"model is a {obs['model_cls']} (argv {c['argv']})"})
+        else:
+            key = "ka" if obs["model_cls"] == "AltA" else "kb"
+            fails += conformance(c["alts"][key], dict(obs["model"]), c["argv"])
+        return fails
+    fails += conformance(c["fields"], dict((k, v) for k, v in obs["fields"]), c["argv"])
     return fails
 
 
@@ -350,9 +1012,34 @@ def nontrivial(case, obs):
 
 def tags(case, obs):
     c = case["case"]
+    out = "out:" + (obs["o"] if obs["o"] != "exit" else f"exit{obs['code']}")
     if case["op"] == "engine.run":
-        return ["op:engine", "out:" + (obs["o"] if obs["o"] != "exit" else f"exit{obs['code']}"), f"toks:{len(c['argv'])}"]
-    return ["op:e2e", "mut:" + c["mutation"], "out:" + (obs["o"] if obs["o"] != "exit" else f"exit{obs['code']}")]
+        t = ["op:engine", out, f"toks:{len(c['argv'])}"]
+        if obs["o"] == "exit":
+            t.append("ekind:" + obs.get("kind", "?"))
+        for a in c["table"][1:]:
+            t.append("act:" + (a["kind"] if a["kind"] == "bool" else a["conv"]["k"]))
+        return sorted(set(t))
+    if case["op"] == "nested.parse":
+        t = ["op:nested", "mut:" + c["mutation"], out]
+        if c["mutation"] == "control":
+            t.append("ctl:accepted" if obs["o"] == "ok" else "ctl:rejected")
+        if obs["o"] == "exit":
+            t.append(f"nkind:{c['mutation']}->{obs.get('kind', '?')}")
+        return t
+    t = ["op:e2e", "mut:" + c["mutation"], "sub:" + c.get("sub", "?"), out, "form:" + c.get("form", "none"), "api:" + c["api"],
+         "cfg:" + ("default" if c["cfg"] == CFG0 else f"{c['cfg']['dash']}/{c['cfg']['gen']}/{c['cfg']['nest']}")]
+    if obs["o"] == "exit" and c["mutation"] not in ("control", "random"):
+        t.append(f"kind:{c['mutation']}->{obs.get('kind', '?')}")
+    if c["mutation"] == "control":
+        t.append("ctl:accepted" if obs["o"] == "ok" else "ctl:rejected")
+    tgt = c.get("target")
+    for f in c["fields"]:
+        if f["name"] == tgt:
+            t.append("ty:" + ty_tag(f["ty"]))
+            if ty_tag(f["ty"]).endswith("tuple-hetero"):
+                t.append("hetero")
+    return t
 
 
 def shrink(case):
@@ -360,7 +1047,24 @@ def shrink(case):
         return
     c = case["case"]
     for i in range(len(c["argv"])):
-        yield {"op": case["op"], "case": dict(c, argv=c["argv"][:i] + c["argv"][i + 1:], mutation=c["mutation"] if c["mutation"] in ("random",) else "random")}
+        yield {"op": case["op"], "case": dict(c, argv=c["argv"][:i] + c["argv"][i + 1:], mutation="random", sub="random", form="none")}
 
 
+def _ill_typed_str_default(case):
+    """a flat dataclass with an Enum / Literal field whose declared default is a string that names no member / value"""
+    if case.get("op") != "fields.parse":
+        return False
+    for f in case["case"]["fields"]:
+        d, t = f["default"], f["ty"]
+        if d["kind"] == "value" and d["v"].get("t") == "str":
+            if t["k"] == "enum" and d["v"]["v"] not in t["members"]:
+                return True
+            if t["k"] == "literal" and d["v"]["v"] not in [G.token(v) for v in t["vals"]]:
+                return True
+    return False
+
+
+# NOT a finding: `color: Color = "PURPLE"` (string default naming no member) raises KeyError on the empty command line; the
+# dataclass itself is ill-typed, i.e. outside the property's quantifier. `_ill_typed_str_default` is kept for the generator
+# (it never produces such defaults).
 FINDINGS = {}
